@@ -42,6 +42,16 @@ def run(api):
         m = re.search(r"Ok\(d\) if d\.as_secs\(\) (<=?) (\d+) => \(\)", ux)
         return [1 if m.group(1) == "<" else 0, int(m.group(2))]
 
+    def env_source():
+        # what `Source::Environment` remembers of TZ and what `Cache::offset` compares (finding F33: it
+        # was a `DefaultHasher` hash; two values with equal hash made a change of TZ go unnoticed).
+        # 1 = the text itself, compared as text, and no hasher anywhere in the file; 0 = anything else
+        decl = re.search(r"enum Source\s*\{\s*LocalTime\s*\{\s*mtime\s*:\s*SystemTime\s*\}\s*,\s*Environment\s*\{\s*tz\s*:\s*String\s*\}\s*,?\s*\}", ux)
+        new = re.search(r"Some\(tz\)\s*=>\s*Source::Environment\s*\{\s*tz\s*:\s*tz\.to_owned\(\)\s*\}", ux)
+        cmp_ = re.search(r"\(Source::Environment\s*\{\s*tz\s*:\s*old_tz\s*\}\s*,\s*Source::Environment\s*\{\s*tz\s*\}\)\s*if\s+old_tz\s*!=\s*tz\s*=>\s*\{\s*true\s*\}", ux)
+        hashed = re.search(r"[Hh]ash", ux)
+        return 1 if (decl and new and cmp_ and not hashed) else 0
+
     def colon():
         m = re.search(r"if chars\.next\(\) == Some\('(.)'\)", tz)
         return ord(m.group(1))
@@ -56,6 +66,7 @@ def run(api):
         ("C18.env name", "src/offset/local/unix.rs", env_name),
         ("C18.reuse window", "src/offset/local/unix.rs", window),
         ("C18.file prefix", "src/offset/local/tz_info/timezone.rs", colon),
+        ("C18.env source", "src/offset/local/unix.rs", env_source),
     ]:
         items[key] = api.section(key, where, fn, None)
     if any(v is None for v in items.values()):
@@ -79,5 +90,8 @@ def run(api):
     t += f"def REUSE_SECS : Nat := {items['C18.reuse window'][1]}\n"
     t += "/-- the prefix character that forces a file lookup -/\n"
     t += f"def FILE_PREFIX : Nat := {items['C18.file prefix']}\n"
+    t += "/-- `Source::Environment { tz: String }` built by `tz.to_owned()` and compared by `old_tz != tz`,\n"
+    t += "no hasher in unix.rs (F33 repaired)? -/\n"
+    t += f"def ENV_SOURCE_IS_TEXT : Bool := {'true' if items['C18.env source'] else 'false'}\n"
     t += "\nend Chrono.Extracted.LocalCache\n"
     api.emit("LocalCache.lean", t)
